@@ -200,6 +200,38 @@ func genSrvRobust(repo string) (string, error) {
 			return "", fmt.Errorf("capacity of Subscription.NotifyChannel not found")
 		}
 	}
+	// (2f) raw frames: uacp.Conn.Receive reads into a buffer of the full receive-buffer size (so that
+	// readChunk's `b[:hdrlen]` stays within capacity for an 8..11 byte frame), or readChunk tests the length
+	fullCap, checksLen := false, false
+	{
+		rc, err := srvrobFindFunc(fset, filepath.Join(repo, "uacp"), "Receive")
+		if err != nil {
+			return "", err
+		}
+		ast.Inspect(rc.Body, func(n ast.Node) bool {
+			if c, ok := n.(*ast.CallExpr); ok {
+				if id, ok := c.Fun.(*ast.Ident); ok && id.Name == "make" && len(c.Args) >= 2 && strings.Contains(types.ExprString(c.Args[1]), "ReceiveBufSize") {
+					fullCap = true
+				}
+			}
+			return true
+		})
+		rd, err := srvrobFindFunc(fset, filepath.Join(repo, "uasc"), "readChunk")
+		if err != nil {
+			return "", err
+		}
+		ast.Inspect(rd.Body, func(n ast.Node) bool {
+			if ifs, ok := n.(*ast.IfStmt); ok {
+				ast.Inspect(ifs.Cond, func(m ast.Node) bool {
+					if b, ok := m.(*ast.BinaryExpr); ok && b.Op == token.LSS && strings.Contains(types.ExprString(b), "len(b)") {
+						checksLen = true
+					}
+					return true
+				})
+			}
+			return true
+		})
+	}
 	// (3) recover() anywhere in package server / uasc (non-test, non-hook files)
 	var recoverers []string
 	for _, pkg := range []string{"server", "uasc"} {
@@ -258,6 +290,10 @@ func genSrvRobust(repo string) (string, error) {
 	fmt.Fprintf(&sb, "def setAttributeNotifiesInline : Bool := %v\n\n", notifyInline)
 	sb.WriteString("/-- buffer size of Subscription.NotifyChannel -/\n")
 	fmt.Fprintf(&sb, "def notifyChanCap : Nat := %d\n\n", notifyCap)
+	sb.WriteString("/-- uacp.Conn.Receive reads every message into a buffer of the whole receive-buffer size -/\n")
+	fmt.Fprintf(&sb, "def receiveBufFullCapacity : Bool := %v\n\n", fullCap)
+	sb.WriteString("/-- uasc readChunk compares len(b) with a minimum before slicing the header off -/\n")
+	fmt.Fprintf(&sb, "def readChunkChecksHeaderLen : Bool := %v\n\n", checksLen)
 	sb.WriteString("/-- functions of packages server and uasc that call `recover()` -/\n")
 	fmt.Fprintf(&sb, "def recoverers : List String := %s\n\n", srvsecLeanList(recoverers))
 	sb.WriteString("/-- (reference type id, `getSubRefs(srv, id)` as numeric ids, in order) for every ReferenceType node of ns 0 -/\n")
